@@ -43,7 +43,8 @@ ASSUMPTIONS = [
 TRUSTED = ["harness/geom.py: exact rational point-in-polygon, polygon-polygon and disc-polygon tests used by the oracle"]
 REQUIRED_BUCKETS = ["net/route/list", "net/route/add", "net/route/empty", "net/route/scenario", "net/route/xml", "net/route/pb",
                     "net/route/pb-net", "net/op/deepcopy", "net/op/pickle", "net/op/add", "net/op/add-known", "net/op/remove",
-                    "net/op/remove-unknown", "net/op/addFrom", "net/op/cut", "net/op/rtree-false", "net/point/on-boundary",
+                    "net/op/remove-unknown", "net/op/addFrom", "net/op/sc_remove-ok", "net/op/sc_remove-fails",
+                    "net/history/query-after-failed-op", "net/op/cut", "net/op/rtree-false", "net/point/on-boundary",
                     "net/point/multi", "net/point/none", "net/shape/circ", "net/shape/rect", "net/shape/poly", "net/shape/group",
                     "net/shape/multi", "net/shape/none", "net/shape/touching", "shape/rect", "shape/circ", "shape/poly", "shape/group",
                     "shape/on-boundary", "obst/static", "obst/set", "obst/traj", "obst/group", "obst/hit", "obst/miss",
@@ -272,9 +273,14 @@ def gen_net_case(r):
             current.append(l)
     ops = []
     fresh = True
+    gone = []                                                # lanelets that were removed: queried as well
+    has_sc = route in ("scenario", "xml", "pb")              # the network is still the one its Scenario owns
+    sc_ids = {c["id"] for c in current} if has_sc else set()  # ids the Scenario has registered
     spare = [] if route != "empty" else list(lanelets)
     for _ in range(r.choice([0, 0, 1, 2, 3, 5]) + (2 if route == "empty" and r.random() < 0.7 else 0)):
         kind = r.choice(["add", "add", "add-known", "remove", "remove", "remove-unknown", "addFrom", "deepcopy", "pickle", "cut"])
+        if has_sc and r.random() < 0.5:
+            kind = "sc_remove"
         rtree = r.random() < 0.7
         if kind == "add":
             if spare:
@@ -294,8 +300,28 @@ def gen_net_case(r):
             src = r.choice(current)
             l = _with_addr(gen_lanelets(r, ids=[src["id"]], nmax=1))[0]
             ops.append({"op": "add", "l": l, "rtree": rtree})          # rejected: no change, no rebuild
+        elif kind == "sc_remove":
+            # Scenario.remove_lanelet with a list; an entry that is not (or no longer) in the scenario makes it raise
+            # KeyError after the earlier entries were removed; the error is caught and the history goes on
+            pres = [c["id"] for c in current if c["id"] in sc_ids]
+            absent = r.choice([i for i in range(1, 500) if i not in used])
+            former = [g["id"] for g in gone] or [absent]
+            r.shuffle(pres)
+            p1 = pres[0] if pres else absent
+            p2 = pres[1] if len(pres) > 1 else absent
+            ids = r.choice([[p1], [p1], [p1, p2], [p2, p1], [p1, p2], [p1, p1], [p1, absent], [p1, p2, p1], [absent, p1], [r.choice(former)],
+                            [p1, r.choice(former), p2], [p2, p1, absent]])
+            ops.append({"op": "sc_remove", "ids": ids, "as_list": len(ids) > 1 or r.random() < 0.5})
+            for k, i in enumerate(ids):
+                hit = [c for c in current if c["id"] == i and i in sc_ids]
+                if not hit:
+                    break
+                current = [c for c in current if c["id"] != i]
+                gone.extend(hit)
+                fresh = True                                   # every single removal rebuilds the index
         elif kind == "remove" and current:
             v = r.choice(current)
+            gone.append(v)
             current = [c for c in current if c["id"] != v["id"]]
             ops.append({"op": "remove", "id": v["id"], "rtree": rtree})
             fresh = rtree
@@ -314,12 +340,13 @@ def gen_net_case(r):
         elif kind in ("deepcopy", "pickle", "cut"):
             ops.append({"op": kind})
             fresh = True
+            has_sc = False
     if not fresh:
         # the last change was made with rtree=False: finish with an operation that rebuilds the index
         nid = r.choice([i for i in range(1, 500) if i not in used])
         ops.append(r.choice([{"op": "remove", "id": nid, "rtree": True}, {"op": "addFrom", "ls": []}, {"op": "deepcopy"},
                              {"op": "pickle"}]))
-    geo = current if current else lanelets
+    geo = (current + gone[:3]) if (current or gone) else lanelets        # also where removed lanelets used to be
     return {"kind": "net", "route": route, "lanelets": init, "ops": ops, "pts": net_points(r, geo, r.choice([10, 20, 30])),
             "shapes": net_shapes(r, geo, r.choice([4, 6, 10]))}
 
@@ -434,25 +461,27 @@ def _via_file(ctx, lanelets, fmt, net_only):
     _quiet(w.write_to_file, path, OverwriteExistingFile.ALWAYS)
     rd = CommonRoadFileReader(path)
     if net_only:
-        return _quiet(rd.open_lanelet_network)
-    return _quiet(rd.open)[0].lanelet_network
+        return _quiet(rd.open_lanelet_network), None
+    sc2 = _quiet(rd.open)[0]
+    return sc2.lanelet_network, sc2
 
 
 def build_network(ctx, route, lanelets):
+    """(network, scenario that owns it or None)"""
     from commonroad.scenario.lanelet import LaneletNetwork
     if route == "list":
-        return LaneletNetwork.create_from_lanelet_list([build_lanelet(l) for l in lanelets])
+        return LaneletNetwork.create_from_lanelet_list([build_lanelet(l) for l in lanelets]), None
     if route in ("add", "empty"):
         n = LaneletNetwork()
         for l in lanelets:
             n.add_lanelet(build_lanelet(l))
-        return n
+        return n, None
     if route == "scenario":
         from commonroad.scenario.scenario import Scenario
         sc = Scenario(0.1)
         for l in lanelets:
             sc.add_objects(build_lanelet(l))
-        return sc.lanelet_network
+        return sc.lanelet_network, sc
     if route == "xml":
         return _via_file(ctx, lanelets, "xml", False)
     if route == "pb":
@@ -462,9 +491,18 @@ def build_network(ctx, route, lanelets):
     raise ValueError(route)
 
 
-def apply_op(n, op):
+def _stray_lanelet(i):
+    """A lanelet that was never added to anything (far away), for naming an id the scenario does not contain."""
+    return build_lanelet({"id": i, "left": [[9000.0, 9002.0], [9010.0, 9002.0]], "right": [[9000.0, 9000.0], [9010.0, 9000.0]]})
+
+
+def apply_op(n, op, sc=None):
+    """Apply one operation; returns (network, owning scenario or None, class of the exception the operation raised and we
+    caught or None).  Only operations through the Scenario are allowed to raise (they are part of the history: the caller
+    catches the error and goes on using the network)."""
     from commonroad.scenario.lanelet import LaneletNetwork
     k = op["op"]
+    caught = None
     if k == "add":
         n.add_lanelet(build_lanelet(op["l"]), rtree=op["rtree"])
     elif k == "remove":
@@ -472,15 +510,28 @@ def apply_op(n, op):
     elif k == "addFrom":
         other = LaneletNetwork.create_from_lanelet_list([build_lanelet(l) for l in op["ls"]])
         n.add_lanelets_from_network(other)
+    elif k == "sc_remove":
+        if sc is None or sc.lanelet_network is not n:
+            raise ValueError("sc_remove without the owning scenario")
+        objs = {}
+        for i in op["ids"]:
+            if i not in objs:
+                objs[i] = n.find_lanelet_by_id(i) or _stray_lanelet(i)
+        arg = [objs[i] for i in op["ids"]]
+        try:
+            sc.remove_lanelet(arg if (len(arg) != 1 or op.get("as_list", True)) else arg[0])
+        except Exception as e:  # noqa: the history goes on after the caller caught the error
+            from common import err_class
+            caught = err_class(e)
     elif k == "deepcopy":
-        n = copy.deepcopy(n)
+        n, sc = copy.deepcopy(n), None
     elif k == "pickle":
-        n = pickle.loads(pickle.dumps(n))
+        n, sc = pickle.loads(pickle.dumps(n)), None
     elif k == "cut":
-        n = LaneletNetwork.create_from_lanelet_network(n)
+        n, sc = LaneletNetwork.create_from_lanelet_network(n), None
     else:
         raise ValueError(k)
-    return n
+    return n, sc, caught
 
 
 def model_ops(ops):
@@ -493,6 +544,8 @@ def model_ops(ops):
             out.append({"op": "remove", "id": op["id"], "rtree": op["rtree"]})
         elif k == "addFrom":
             out.append({"op": "addFrom", "ls": [wire_lanelet(l) for l in op["ls"]]})
+        elif k == "sc_remove":
+            out.append({"op": "scRemove", "ids": op["ids"]})
         else:
             out.append({"op": "copy", "shift": 100000 * (i + 1)})
     return out
@@ -530,7 +583,8 @@ def run_net(ctx, case, model=True):
     if r[0] == "err":
         _fail(ctx, f"C06/build/{route}/raises-{r[1]}", f"building the network by route {route} raises {r[2]}", case)
         return
-    n = r[1]
+    n, sc = r[1]
+    caught = []
     known = {l["id"] for l in lanelets} if route != "empty" else set()
     nps = [np.array(p, dtype=float) for p in pts]
     if pts and ops:
@@ -546,11 +600,18 @@ def run_net(ctx, case, model=True):
             known.discard(op["id"])
         if op["op"] == "addFrom":
             known.update(l["id"] for l in op["ls"])
-        r = call(apply_op, n, op)
+        if op["op"] == "sc_remove":
+            known.difference_update(op["ids"])
+        r = call(apply_op, n, op, sc)
         if r[0] == "err":
             _fail(ctx, f"C06/op/{op['op']}/raises-{r[1]}", f"operation {i} ({op['op']}) raises {r[2]}", case)
             return
-        n = r[1]
+        n, sc, c = r[1]
+        caught.append(c)
+        if op["op"] == "sc_remove":
+            ctx.tag("net/op/sc_remove-fails" if c else "net/op/sc_remove-ok")
+            if c and i + 1 == len(ops):
+                ctx.tag("net/history/query-after-failed-op")
 
     rings = impl_rings(n)
     ids = sorted(rings)
@@ -706,8 +767,8 @@ def run_net(ctx, case, model=True):
             msh = []
             for ans, amb in zip(mm["shape"], masks_sh):
                 msh.append({"ok": sorted(i for i in ans["ok"] if i not in amb)} if "ok" in ans else ans)
-            m = {"ids": sorted(mm["ids"]), "pos": mpos, "shape": msh}
-        ctx.compare(case, {"ids": ids, "pos": impl_pos, "shape": impl_sh}, m, "LaneletNetwork lookups vs CR.Index.findByPosition/findByShape")
+            m = {"ids": sorted(mm["ids"]), "pos": mpos, "shape": msh, "caught": mm["caught"][len(mm["caught"]) - len(ops):]}
+        ctx.compare(case, {"ids": ids, "pos": impl_pos, "shape": impl_sh, "caught": caught}, m, "LaneletNetwork lookups vs CR.Index.findByPosition/findByShape")
 
 
 def _spec_ring(spec):
